@@ -19,6 +19,7 @@ import (
 
 func init() {
 	Register(&Scenario{Prop: "C08", Name: "labels-sequential", Strict: true, Quick: 10, Thorough: 10, Run: runC08Seq})
+	Register(&Scenario{Prop: "C08", Name: "labels-store-errors", Strict: true, Quick: 3, Thorough: 3, Run: runC08Err})
 	Register(&Scenario{Prop: "C08", Name: "labels-concurrent", Strict: true, Quick: 6, Thorough: 8, Run: runC08Conc})
 }
 
@@ -27,6 +28,127 @@ var hostileLabelNames = []string{"a/b", "..", "sp ace", "v1.0", "x#y", "é/ü", 
 
 // labelWritesOnlyItself: a label operation writes only labels/{repo}/{name}/label.yaml in the label store
 // and nothing in the metadata store.
+// runC08Err: a sequential program of label assignments and deletions in which an assignment may be hit by one store error on
+// the write of its descriptor (the write fails before landing, or lands and reports a failure). An assignment that reports the
+// error leaves the label at its previous target or at the new one; one that reports success has set it. Whatever happened, the
+// label never resolves to anything else, and listings agree with what getting the label returns.
+func runC08Err(rc *RunCtx) *simkit.Violation {
+	const prop = "C08"
+	w := rc.W
+	t := w.W
+	d := newDM(rc)
+	d.VMetPlain = t.Bool(1, 2) // a label store without checksummed writes (a local-directory context) or with them (GCS)
+	d.VMet.Versioned = !d.VMetPlain && t.Bool(1, 2)
+	r := "r1"
+	seedRepo(d, r)
+	var bundles []string
+	for k := 0; k < 3; k++ {
+		bundles = append(bundles, seedBundle(d, t, r, true, 1))
+	}
+	cl := w.Client("c")
+	st := d.Stores(cl)
+	labels := map[string]string{}
+	names := []string{"v1", "latest", "rel-2"}
+	var trace []string
+	steps := t.Range(2, 8)
+	for i := 0; i < steps; i++ {
+		name := names[t.Choose(len(names))]
+		prev, hadPrev := labels[name]
+		if hadPrev && t.Bool(1, 5) {
+			tk, v := doOp(prop, w, cl, "delete", func() (interface{}, error) { return nil, core.DeleteLabel(r, st, name) })
+			if v != nil {
+				return v
+			}
+			if tk.Err != nil {
+				return Viol(prop, "delete-failed", "DeleteLabel", name, "deleting the live label %q failed without any fault: %v", name, tk.Err)
+			}
+			delete(labels, name)
+			trace = append(trace, fmt.Sprintf("delete %q", name))
+			continue
+		}
+		id := bundles[t.Choose(len(bundles))]
+		kind := simkit.FNone
+		if t.Bool(2, 3) {
+			kind = []simkit.Kind{simkit.FErr, simkit.FAckLost, simkit.FAckLost}[t.Choose(3)]
+			w.Faults = &simkit.FaultCfg{Plan: []*simkit.Planned{{Client: cl.Name, Kind: kind, Match: func(c *simkit.Call) bool {
+				return c.Op.IsWrite() && strings.Contains(c.Key, "label.yaml")
+			}}}}
+		}
+		before := faultCount(w)
+		tk, v := doOp(prop, w, cl, "set", setLabelFn(st, r, name, id))
+		w.Faults = nil
+		if v != nil {
+			return v
+		}
+		hit := faultCount(w) != before
+		trace = append(trace, fmt.Sprintf("set %q->%s fault=%v err=%v", name, tail4(id), hit, tk.Err != nil))
+		w.Note("%s", trace[len(trace)-1])
+		if tk.Err != nil && !hit {
+			return Viol(prop, "set-failed", "UploadDescriptor", name, "setting the valid label %q failed without any fault: %v", name, tk.Err)
+		}
+		gt, v := doOp(prop, w, cl, "get", getLabelFn(st, r, name))
+		if v != nil {
+			return v
+		}
+		switch {
+		case tk.Err == nil:
+			if hit {
+				w.Probe("set-succeeded-despite-store-error")
+			}
+			if gt.Err != nil {
+				return Viol(prop, "accepted-name-unresolvable", "DownloadDescriptor-after-store-error", name, "label %q was set (success reported) but cannot be resolved: %v (history: %v)", name, gt.Err, trace)
+			}
+			if gt.Result.(string) != id {
+				return Viol(prop, "label-wrong-target", "DownloadDescriptor-after-store-error", name, "label %q resolves to %q right after being set to %s (history: %v)", name, gt.Result, id, trace)
+			}
+			labels[name] = id
+		case gt.Err != nil:
+			w.Probe("set-failed-on-store-error")
+			if hadPrev {
+				return Viol(prop, "get-failed", "DownloadDescriptor-after-store-error", name, "an assignment of the live label %q failed on a store error and the label can no longer be resolved: %v (history: %v)", name, gt.Err, trace)
+			}
+		default:
+			w.Probe("set-failed-on-store-error")
+			got := gt.Result.(string)
+			if got != id && !(hadPrev && got == prev) {
+				return Viol(prop, "label-wrong-target", "DownloadDescriptor-after-store-error", name, "an assignment of label %q to %s failed on a store error; the label now resolves to %q, which is neither its previous target (%q) nor the new one (history: %v)", name, id, got, prev, trace)
+			}
+			labels[name] = got
+			if got == id {
+				w.Probe("failed-set-took-effect")
+			}
+		}
+		// listings agree
+		lt, v := doOp(prop, w, cl, "list", func() (interface{}, error) { return core.ListLabels(r, st, core.BatchSize(t.Pick(1, 2, 1024))) })
+		if v != nil {
+			return v
+		}
+		if lt.Err != nil {
+			return Viol(prop, "list-broken", "ListLabels-after-store-error", r, "ListLabels fails: %v (history: %v)", lt.Err, trace)
+		}
+		got := map[string]string{}
+		for _, l := range lt.Result.([]model.LabelDescriptor) {
+			got[l.Name] = l.BundleID
+		}
+		for _, n := range sortedKeys(labels) {
+			if g, ok := got[n]; !ok {
+				return Viol(prop, "label-not-listed", "ListLabels-after-store-error", n, "live label %q is not listed (history: %v)", n, trace)
+			} else if g != labels[n] {
+				return Viol(prop, "label-wrong-target", "ListLabels-after-store-error", n, "label %q is listed with bundle %q, it resolves to %s (history: %v)", n, g, labels[n], trace)
+			}
+		}
+		for _, n := range sortedKeys(got) {
+			if _, ok := labels[n]; !ok {
+				return Viol(prop, "label-foreign", "ListLabels-after-store-error", n, "ListLabels shows %q which is not a live label (history: %v)", n, trace)
+			}
+		}
+	}
+	if fired(w) {
+		w.Probe("nontrivial")
+	}
+	return nil
+}
+
 func labelWritesOnlyItself(prop string, d *DM, current func() (string, string)) func(*simkit.Event) *simkit.Violation {
 	return func(ev *simkit.Event) *simkit.Violation {
 		if !ev.Op.IsWrite() {
